@@ -234,8 +234,8 @@ class World:
             # arrays handed out by the conversions are the caller's: overwriting them must not reach the object
             own = snapshot(x)
             for name, how in (('call', lambda: x()), ('get_val', lambda: x.get_val()), ('astype-int', lambda: x.astype(int)), ('astype-float', lambda: x.astype(float))):
-                if name == 'astype-int' and fmt[1] - fmt[2] > 60:
-                    continue        # integer conversion of values beyond 64 bits is not a conversion any statement covers
+                if not (fmt[1] <= 52 and -8 <= fmt[2] <= fmt[1] + 8):
+                    continue        # conversions are claimed for core-domain formats (results of arithmetic may lie outside)
                 a = how()
                 if isinstance(a, np.ndarray) and a.ndim >= 1 and a.flags.writeable:
                     a[...] = 99
